@@ -19,8 +19,8 @@ CHECKS = {
         note="Exact reals; power and lookup-grid abstractions as in C02; replay on real plans; new_ltf_plan violates r*L=fs (known finding F5b).",
         ref="DESIGN.md section 4 C03"),
     "C04": dict(
-        text="Solver-decided for one iteration from an arbitrary state: K is the integer nearest to 1+(N-L)/((1-olap)L) capped at N-L+1 (tie free), starts within half a sample of k(N-L)/(K-1), reported overlap equals the realised mean overlap (bins with 1..4 symbolic starts), unclamped-regime clauses |L-L*|<=1/2 and the Kdes-level averaging bound; find_Jdes_binary_search and plan(force_target_nf) are executed in fork mode over every return pattern of an uninterpreted scheduler: exact count or error. Two-step monotonicity of L and K is posed in the thorough tier (may be inconclusive).",
-        note="Exact reals; MIN_JDES/MAX_JDES shrunk to 8/32 values; 'within 10% of the iterative scheduler' is outside the claim; monotonicity obligations were inconclusive at 120 s in this sandbox and are reported as such, never as success.",
+        text="Solver-decided for one iteration from an arbitrary state: K is the integer nearest to 1+(N-L)/((1-olap)L) capped at N-L+1 (tie free), starts within half a sample of k(N-L)/(K-1), reported overlap equals the realised mean overlap (bins with 1..4 symbolic starts), unclamped-regime clauses |L-L*|<=1/2 and the Kdes-level averaging bound; find_Jdes_binary_search and plan(force_target_nf) are executed in fork mode over every return pattern of an uninterpreted scheduler: exact count or error. Monotonicity of L and K along a plan is decided as monotonicity of the step map (two independent copies of one iteration from arbitrary states fi<=fi2, N unbounded) through a three-link chain cut at the body's two rounding statements, each link proved for arbitrary values of the quantity crossing the cut (ltf, lpsd, and the lookup maps of the vectorised scheduler).",
+        note="Exact reals; MIN_JDES/MAX_JDES shrunk to 8/32 values; 'within 10% of the iterative scheduler' is outside the claim; the single-query form of monotonicity (two consecutive iterations) stays `unknown` and is kept in the thorough tier only, reported as inconclusive; the chain's auxiliary links are reported as violations only when a real plan of the model's configuration is non-monotone; thorough tier adds whole plans executed path by path at N=8.",
         ref="DESIGN.md section 4 C04"),
     "C05": dict(
         text="Symbolic verification of the wiring of compute(), _lpsd_core, compute_single_bin and the band filter: the whole analysis module is re-created over one namespace in which the 18 kernels are recorders returning fresh symbols, the window function returns a tagged symbolic array and _build_Q a tag; for plans covering every equality pattern of segment lengths (window/basis caches), every order, mode, backend (incl. auto->cuda above 1000 segments) and window kind the solver/recorder shows that bin j is produced by the right kernel with (x1[,x2], D[j], L[j], win(L[j]) -- Kaiser: length L+1, beta=alpha*pi, last sample dropped --, omega=2*pi*f[j]/fs, Q(L[j],order)), that results and window sums land in bin j, also after an earlier analysis with another window parameter; single-bin requests with symbolic frequency on 14 (N, L|fres, olap) shapes; band edges symbolic with every feasible mask explored by forking.",
@@ -64,15 +64,15 @@ CHECKS = {
         ref="DESIGN.md section 4 C14"),
     "C15": dict(
         text="Symbolic verification of the SISO, analytic (real sympy) and numeric MISO solvers on one generic bin whose joint spectral matrix is ANY Hermitian PSD matrix with PD input block (Cholesky parametrisation): the quantity under the square root is real and equals the Schur complement (last Cholesky pivot squared), hence 0<=residual^2<=S00, zero for an exact static combination, invariant under permutation and symbolic invertible re-mixing, analytic=numeric; q=1,2 fully symbolic, q=4 with a fixed rational input block (index bookkeeping), q=3 in the thorough tier.",
-        note="`ltf` is a stub returning spectra drawn from one joint matrix (estimation itself is C01/C09); np.linalg.solve by Cramer's rule, cond=1 (pinv branch outside); divisions encoded through one shared inverse symbol per divisor.",
+        note="`ltf` is a stub returning spectra drawn from one joint matrix (estimation itself is C01/C09); np.linalg.solve by Cramer's rule; np.linalg.cond -> 1 or (obligation agree/q2/ill-conditioned) 1e13 with np.linalg.pinv = inverse of a nonsingular matrix, replayed on a matrix whose real condition number exceeds 1e12 (singular matrices and pinv's rank cut-off outside); inputs of mixed dtype (integer first) must reach the estimator with their values intact; divisions encoded through one shared inverse symbol per divisor.",
         ref="DESIGN.md section 4 C15"),
     "C16": dict(
-        text="Symbolic verification: every tap returned by lagrange_taps equals the textbook Lagrange weight for a symbolic fraction d (orders 1..15 and the default 31; 55 in the thorough tier) and the taps sum to one; timeshift() is executed on symbolic records for ANY real shift within +-(n+3) samples (integer part enumerated by value forking inside the code, fraction symbolic): interior samples equal the interpolant at n+s, integer shifts displace with held end values, zero shift is the identity, polynomial records of degree <= order are reproduced, the time-varying path agrees with the constant path; df_timeshift applies exactly seconds*fs (symbolic) to the selected numeric columns only.",
-        note="Reals for binary64 (int/int constants such as j/halfp are kept exact by interpreting lagrange_taps from its source); n<=7 (quick)/9, orders<=5/9 for timeshift; np.pad/correlate/einsum/sliding_window_view are numpy's own code on object arrays.",
+        text="Symbolic verification: every tap returned by lagrange_taps equals the textbook Lagrange weight for a symbolic fraction d (orders 1..15 and 31 in full, the outermost and central weights at orders 71 and 111; all weights up to order 111 in the thorough tier; compared on the scale of the weight itself) and the taps sum to one; timeshift() is executed on symbolic records for ANY real shift within +-(n+3) samples (integer part enumerated by value forking inside the code, fraction symbolic): interior samples equal the interpolant at n+s, integer shifts displace with held end values, zero shift is the identity, polynomial records of degree <= order are reproduced, the time-varying path agrees with the constant path; df_timeshift applies exactly seconds*fs (symbolic) to the selected numeric columns only.",
+        note="Reals for binary64 (int/int constants such as j/halfp are kept exact by interpreting lagrange_taps from its source); n<=7 (quick)/9, orders<=5/9 for timeshift; np.pad/correlate/einsum/sliding_window_view are numpy's own code on object arrays; records of integer dtype are object arrays whose stores cast like numpy (IntNd).",
         ref="DESIGN.md section 4 C16"),
     "C17": dict(
-        text="Symbolic verification with a symbolic random stream: the colouring cascade (real py_func) carries its state exactly over every split of <=6 samples into <=3 blocks incl. empty and single-sample blocks and equals the direct-form reference cascade; for white, red, alpha and pink generators any sequence of block requests equals one request of the total length for a twin with the same seed (with and without the settling call), same seed => same samples, different/no seed => different stream (witness), get_sample runs equal the stream prefix.",
-        note="numpy's Generator being a stream and scipy.signal.lfilter's recurrence are stub contracts, validated on the real libraries at the boundary sizes on every run; for an empty input the lfilter stub returns an ARBITRARY final state (observed behaviour), which is what exposed F10.",
+        text="Symbolic verification with a symbolic random stream: the colouring cascade (real py_func) carries its state exactly over every split of <=6 samples into <=3 blocks incl. empty and single-sample blocks and equals the direct-form reference cascade; for white, red, alpha and pink generators any sequence of block requests equals one request of the total length for a twin with the same seed (with and without the settling call), same seed => same samples, different/no seed => different stream (witness), get_sample runs equal the stream prefix, two live generators consumed in interleaved patterns each deliver their own stream, a later same-seed instance reproduces the stream.",
+        note="numpy's Generator being a stream and scipy.signal.lfilter's recurrence are stub contracts, validated on the real libraries at the boundary sizes on every run; for an empty input the lfilter stub returns an ARBITRARY final state (observed behaviour), which is what exposed F10; module-level block/buffer-size constants of speckit.noise (integers in [1024,2^31)) are 3 in the symbolic run and in the replay, so the code's own chunk boundaries are crossed.",
         ref="DESIGN.md section 4 C17"),
     "C18": dict(
         text="white noise: rms^2=psd*fs and draws N(0,rms); fftnoise/band_limited_noise executed on symbolic spectra, unit phasors, band edges and sample rate with the inverse FFT captured by contract (ifft and irfft): the returned real series has exactly the prescribed DFT (Hermitian, DC/Nyquist real, zero outside the band, unit magnitude inside); shaping filter: for each configuration of a grid the real constructor's coefficients are exact rationals and on every cell of [2 fmin_eff, fmax_eff/2] the solver shows the two-sided density within 1.25 dB of f^-alpha for EVERY frequency.",
@@ -83,8 +83,8 @@ CHECKS = {
         note="np.polyfit is replaced by its least-squares contract (normal equations); cumulative_trapezoid is scipy's own code on object arrays; the Parseval clause is statistical and outside.",
         ref="DESIGN.md section 4 C19"),
     "C20": dict(
-        text="Symbolic verification of every derived attribute against the documented function of the base estimates on a generic bin (cross and auto, zero statistics included), None rules and AttributeError for unknown names; get_measurement on 3 bins with symbolic increasing f, symbolic values and symbolic query (grid value, linearity of real/imag parts, clamping, scalar/array shape); to_dataframe's column dict for every pattern of per-bin segment counts incl. all-equal and single-bin results; __getattr__ termination on bare instances for all copy/pickle probe names (finite enumeration on the real code object) and copy/deepcopy/pickle round trips in the replay world.",
-        note="Reals for binary64; np.interp, log10, atan2, unwrap, pandas and pickle by contract; export/protocol clauses are finite enumerations run on the clone, not solver queries (no symbolic input exists there).",
+        text="Symbolic verification of every derived attribute against the documented function of the base estimates on a generic bin (cross and auto, zero statistics included), None rules and AttributeError for unknown names; get_measurement on 3 bins with symbolic increasing f, symbolic values and symbolic query (grid value, linearity of real/imag parts, clamping, scalar/array shape); to_dataframe's column dict for every pattern of per-bin segment counts incl. all-equal and single-bin results; __getattr__ termination on bare instances for all copy/pickle probe names (finite enumeration on the real code object) copy/deepcopy/pickle as the real standard-library protocol on symbolic instances incl. histories over two results; unwrapped phases on 2-3 bins with np.unwrap encoded by its documented algorithm; the exported frame is a snapshot.",
+        note="Reals for binary64; np.interp, log10, pandas by contract, atan2 by range/quadrant facts; export/protocol clauses are finite enumerations run on the clone, not solver queries (no symbolic input exists there).",
         ref="DESIGN.md section 4 C20"),
 }
 
